@@ -12,7 +12,9 @@ same tasks serially); the template LRU must satisfy its structural invariant; id
 so residue and foreign deletions are attributed to a task.
 """
 import gc
+import os
 import random
+import tempfile
 import sys
 import threading
 
@@ -51,6 +53,8 @@ class Env(e1run.E1Env):
 
         self.misc = misc
         self.counter = 0
+        self.files_dir = os.path.join(tempfile.gettempdir(), f"vf-c07-files-{os.getpid()}")
+        os.makedirs(self.files_dir, exist_ok=True)
         self.tags = {}
         orig_generate = misc.generate
 
@@ -145,6 +149,18 @@ class Env(e1run.E1Env):
 
         return run, classes
 
+    def task_shared_first_media(self, tag, box):
+        """Renders a class that the OTHER task renders too and whose media (template file, inline js / css, Media) nobody
+        has resolved yet: the class is made afresh before every schedule (see reset_state)."""
+
+        def run():
+            self.tags[threading.get_ident()] = tag
+            cls = box["cls"]
+            out = e1run.normalise(cls.render(render_dependencies=False))
+            return (out, cls.js, cls.css, list(cls.media._js))
+
+        return run, box
+
     def task_first_media(self, tag):
         self.k += 1
         n = self.k
@@ -189,13 +205,38 @@ def make_workload(env, rng, ntasks, kinds=None):
     """-> (list of (kind, task fn), cleanup handles).  Fresh classes/templates per workload instance."""
     tasks = []
     keep = []
+    given = bool(kinds)
     kinds = kinds or [rng.choice(KINDS) for _ in range(ntasks)]
-    if "failing" not in kinds and "program" not in kinds and rng.random() < 0.7:
+    if not given and "failing" not in kinds and "program" not in kinds and rng.random() < 0.7:
         kinds[0] = "program"
     shared = None
     for i, kind in enumerate(kinds):
         tag = "abc"[i]
-        if kind == "shared_churn":
+        if kind == "shared_media":
+            if not getattr(env, "_sm_box", None) or env._sm_box.get("workload") is not keep:
+                from vf import boot
+
+                env.k += 1
+                n = env.k
+                box = {"workload": keep}
+                # template, js and css come from FILES in a directory listed in COMPONENTS.dirs (see explore_workload)
+                os.makedirs(env.files_dir, exist_ok=True)
+                with open(os.path.join(env.files_dir, f"c07sm{n}.html"), "w") as f:
+                    f.write(f"<m>{n} {{{{ 1|add:1 }}}}</m>")
+                with open(os.path.join(env.files_dir, f"c07sm{n}.js"), "w") as f:
+                    f.write(f"/*jsfile{n}*/")
+                with open(os.path.join(env.files_dir, f"c07sm{n}.css"), "w") as f:
+                    f.write(f".cfile{n}{{}}")
+
+                def prep(box=box, n=n):
+                    box["i"] = box.get("i", 0) + 1
+                    box["cls"] = type(f"C07SM{n}_{box['i']}", (env.Component,), {"template_file": f"c07sm{n}.html", "js_file": f"c07sm{n}.js", "css_file": f"c07sm{n}.css", "Media": type("Media", (), {"js": [f"sm{n}.js"]})})
+
+                env.preparers = getattr(env, "preparers", []) + [prep]
+                env._sm_box = box
+            fn, h = env.task_shared_first_media(tag, env._sm_box)
+            keep.append(("classes", h))
+        elif kind == "shared_churn":
             if shared is None:
                 env.k += 1
                 shared = [type(f"C07Shared{env.k}_{j}", (env.Component,), {"template": f"<s>{env.k}-{j} {{{{ 1|add:{j} }}}}</s>"}) for j in range(3)]
@@ -223,6 +264,7 @@ def make_workload(env, rng, ntasks, kinds=None):
 
 
 def cleanup(env, keep):
+    env.preparers = []
     for what, h in keep:
         if what == "built":
             h.dispose()
@@ -240,6 +282,9 @@ def reset_state(env, cache_size):
 
     dcache.template_cache = None
     comp.component_node_subclasses_by_name.clear() if hasattr(comp, "component_node_subclasses_by_name") else None
+    # per-schedule preparation (e.g. a FRESH class whose media both tasks resolve for the first time)
+    for prep in getattr(env, "preparers", []):
+        prep()
 
 
 def classify_result(r):
@@ -310,6 +355,8 @@ def shared_site_predicate(kinds):
     files = {"template.py", "cache.py"}
     if any(k in ("program", "failing") for k in kinds):
         files.add("provide.py")
+    if "shared_media" in kinds:
+        files.add("component_media.py")
     if "media" in kinds:
         files = {"component_media.py"} if all(k == "media" for k in kinds) else files | {"component_media.py"}
     return lambda where: where.split(":")[0] in files
@@ -323,7 +370,7 @@ def explore_workload(env, rec, rng, spec, wi):
     kinds = None
     if spec.get("kinds"):
         kinds = list(spec["kinds"][wi % len(spec["kinds"])])
-    with env.override_settings(COMPONENTS={"context_behavior": mode, "autodiscover": False, "template_cache_size": cache_size}):
+    with env.override_settings(COMPONENTS={"context_behavior": mode, "autodiscover": False, "template_cache_size": cache_size, "dirs": [env.files_dir]}):
         tasks, keep = make_workload(env, rng, ntasks, kinds)
         try:
             kinds = [k for k, _ in tasks]
@@ -387,6 +434,13 @@ def explore_workload(env, rec, rng, spec, wi):
                 else:
                     rec.count("sites3_sampled_workloads")
                     seen = set()
+                    # every single-switch schedule first (when they fit into half of the budget), then sampled triples
+                    if sum(nsites[a] for a, _ in pairs_ab) <= spec["max_schedules"] // 2:
+                        rec.count("sites3_all_single_switches_workloads")
+                        for a, b in pairs_ab:
+                            for n1 in range(1, nsites[a] + 1):
+                                allp.append((a, [(a, n1, b)]))
+                                seen.add((a, ((a, n1, b),)))
                     for _ in range(spec["max_schedules"] * 3):
                         if len(allp) >= spec["max_schedules"]:
                             break
@@ -495,10 +549,10 @@ def plan(tier, seed):
             shards.append({"name": f"pct_{i:02d}", "strategy": "pct", "ntasks": 3, "workloads": 4, "max_schedules": 150, "idx": i})
         shards.append({"name": "stress", "strategy": "stress", "workloads": 6, "reps": 60, "idx": 0})
         for i in range(3):
-            shards.append({"name": f"s3_{i:02d}", "strategy": "sites3", "ntasks": 2, "workloads": 3, "max_schedules": 1200, "idx": i, "kinds": [("shared_churn", "shared_churn"), ("shared_churn", "shared_churn"), ("churn", "shared_churn"), ("shared_churn", "program")][i:] + [("shared_churn", "shared_churn")]})
+            shards.append({"name": f"s3_{i:02d}", "strategy": "sites3", "ntasks": 2, "workloads": 3, "max_schedules": 1200, "idx": i, "kinds": [("shared_churn", "shared_churn"), ("shared_media", "shared_media"), ("churn", "shared_churn"), ("shared_churn", "program")][i:] + [("shared_media", "shared_media"), ("shared_churn", "shared_churn")]})
     else:
         for i in range(6):
-            shards.append({"name": f"s3_{i:02d}", "strategy": "sites3", "ntasks": 2, "workloads": 4, "max_schedules": 6000, "idx": i, "kinds": [("shared_churn", "shared_churn"), ("shared_churn", "shared_churn"), ("churn", "shared_churn"), ("shared_churn", "program")]})
+            shards.append({"name": f"s3_{i:02d}", "strategy": "sites3", "ntasks": 2, "workloads": 4, "max_schedules": 6000, "idx": i, "kinds": [("shared_churn", "shared_churn"), ("shared_media", "shared_media"), ("churn", "shared_churn"), ("shared_churn", "program")]})
         for i in range(16):
             shards.append({"name": f"p1_{i:02d}", "strategy": "preempt1", "ntasks": 2, "workloads": 10, "max_schedules": 4000, "idx": i})
         for i in range(8):
